@@ -454,7 +454,6 @@ func methodResolution(c *Check, a *Anchors, rule string) {
 	c.Floor(rule, n, 2)
 }
 
-
 // dryOptionKind classifies the dry flag an IsTaskUpToDate call is given: a direct fingerprint.WithDry(x) argument, or one that
 // an options helper of the same package builds (WithDry(<helper parameter>) is mapped back to the argument at this call site).
 func dryOptionKind(c *Check, info *types.Info, fb *FuncBody, call *ast.CallExpr) string {
